@@ -86,7 +86,7 @@ theorem element_trav (st : PhSt) (de : List (Nat × Tree)) (e : Tree) (inv : TIn
       · have hke : ks.isEmpty = false := by cases ks <;> simp_all
         simp only [hke, Bool.false_eq_true, if_false, h1]
         have hg : Good st' de ks alt := res.good (by omega)
-        exact undoElement_of_good st2 de ha i p ks alt (hg.mono hst) hk hlow.1 hlow.2.1
+        exact undoElement_of_good st2 de ha hst.ext.1 hc2 i p ks alt (hg.mono hst) hk hlow.1 hlow.2.1
 
 theorem Trav.trans {a b c : PhSt} {de : List (Nat × Tree)} {i1 i2 is : List Nat} (h1 : Trav a b de i1)
     (h2 : Trav b c de i2) (s1 : ∀ i ∈ i1, i ∈ is) (s2 : ∀ i ∈ i2, i ∈ is) : Trav a c de is := by
